@@ -113,12 +113,7 @@ func genC12(t *rapid.T) C12Case {
 	var c C12Case
 	cfg := Config{Primary: store.MultihashPrimary, Bits: 8}
 	c.Keys = genKeys(t, cfg, 3, 6)
-	for len(c.Keys) < 3 {
-		k := c.Keys[len(c.Keys)-1]
-		d := append([]byte{}, k.Digest...)
-		d[len(d)-1] ^= byte(0x40 + len(c.Keys))
-		c.Keys = append(c.Keys, KeySpec{Digest: d, Code: k.Code})
-	}
+	c.Keys = extendKeys(c.Keys, 3)
 	nw := rapid.IntRange(1, 3).Draw(t, "writers")
 	for w := 0; w < nw; w++ {
 		ops := rapid.SliceOfN(rapid.Custom(func(t *rapid.T) Op {
